@@ -47,3 +47,129 @@ Section RFC.
       x :: r <> [DOT] -> x :: r <> [DOT; DOT] ->
       rds b (out ++ x :: a) res -> rds (x :: r) out res.
 End RFC.
+
+(* ------------------------------------------------------------------ the escape tokeniser of the path decoder *)
+
+(* A deterministic greedy tokeniser: what construct stands at the head of the unread input, how many bytes of the
+   input it spans under the configuration, and whether decoding stops at it. *)
+Inductive pth_tok :=
+| PT_lit (b : N)              (* a raw byte other than '%' and NUL *)
+| PT_rawnul                   (* a raw NUL byte *)
+| PT_pct (b : N)              (* "%HH", two hex digits: the byte it denotes *)
+| PT_pctu (hi lo : N)         (* "%uHHHH", four hex digits, when %u decoding is enabled: the code point's two bytes *)
+| PT_bad                      (* '%' not followed by a valid escape; only the '%' is consumed *)
+| PT_badx (b : N)             (* PROCESS_INVALID: '%' + two bytes that are not both hex, converted anyway *)
+| PT_badu (hi lo : N).        (* PROCESS_INVALID: "%u" + four bytes that are not all hex, converted anyway *)
+
+Definition pth_issep (c : dcfg) (b : N) : bool := (b =? pth_SL) || (d_backslash c && (b =? pth_BSL)).
+(* the byte a %u escape denotes: the low byte when the high byte is zero, the best-fit map otherwise *)
+Definition pth_u_value (c : dcfg) (hi lo : N) : N :=
+  if hi =? 0 then lo else pth_bestfit_u t_bestfit_1252 hi lo (d_replacement c).
+Definition pth_fl (b : bool) (f : N) : N := if b then f else 0.
+
+Definition pth_is_u (c : dcfg) (a1 : N) : bool := d_u_decode c && ((a1 =? pth_u) || (a1 =? pth_U)).
+
+Definition pth_lex1 (c : dcfg) (rest : bytes) : pth_tok * nat * bool :=
+  match rest with
+  | [] => (PT_bad, 1%nat, true)
+  | x :: r =>
+    if x =? pth_PCT then
+      match r with
+      | a1 :: a2 :: r2 =>
+        if pth_is_u c a1 then
+          match r2 with
+          | a3 :: a4 :: a5 :: _ =>
+            if c_isxdigit a2 && c_isxdigit a3 && c_isxdigit a4 && c_isxdigit a5
+            then (PT_pctu (pth_x2c a2 a3) (pth_x2c a4 a5), 6%nat, false)
+            else match pth_handling c with
+                 | Pth_process => (PT_badu (pth_x2c a2 a3) (pth_x2c a4 a5), 6%nat, false)
+                 | _ => (PT_bad, 1%nat, false)
+                 end
+          | _ => (PT_bad, 1%nat, false)
+          end
+        else if c_isxdigit a1 && c_isxdigit a2 then
+          let b := pth_x2c a1 a2 in
+          if (b =? 0) && d_nul_enc_term c then (PT_pct b, 3%nat, true)
+          else if pth_issep c b && negb (d_sep_decode c)
+               then (PT_pct b, 1%nat, false)      (* left encoded: '%' is copied, the two digits are read again as literals *)
+               else (PT_pct b, 3%nat, false)
+        else match pth_handling c with
+             | Pth_process => (PT_badx (pth_x2c a1 a2), 3%nat, false)
+             | _ => (PT_bad, 1%nat, false)
+             end
+      | _ => (PT_bad, 1%nat, false)
+      end
+    else if x =? 0 then (PT_rawnul, 1%nat, d_nul_raw_term c)
+    else (PT_lit x, 1%nat, false)
+  end.
+
+Fixpoint pth_lex_loop (c : dcfg) (skip : nat) (rest : bytes) : list pth_tok :=
+  match rest with
+  | [] => []
+  | _ :: r =>
+    match skip with
+    | S k => pth_lex_loop c k r
+    | O => let '(t, span, stop) := pth_lex1 c rest in
+           if stop then [t] else t :: pth_lex_loop c (span - 1) r
+    end
+  end.
+Definition pth_lex (c : dcfg) (s : bytes) : list pth_tok := pth_lex_loop c 0 s.
+
+(* which indicators a token raises *)
+Definition pth_u_flags (c : dcfg) (hi lo : N) : N :=
+  N.lor (if hi =? 0 then c_HTP_PATH_OVERLONG_U else pth_fl (hi =? 255) c_HTP_PATH_HALF_FULL_RANGE)
+        (pth_fl (pth_issep c (pth_u_value c hi lo)) c_HTP_PATH_ENCODED_SEPARATOR).
+Definition pth_tok_flags (c : dcfg) (t : pth_tok) : N :=
+  match t with
+  | PT_lit _ => 0
+  | PT_rawnul => c_HTP_PATH_RAW_NUL
+  | PT_pct b => N.lor (pth_fl (b =? 0) c_HTP_PATH_ENCODED_NUL) (pth_fl (pth_issep c b) c_HTP_PATH_ENCODED_SEPARATOR)
+  | PT_pctu hi lo => N.lor (pth_u_flags c hi lo) (pth_fl (pth_u_value c hi lo =? 0) c_HTP_PATH_ENCODED_NUL)
+  | PT_bad => c_HTP_PATH_INVALID_ENCODING
+  | PT_badx _ => c_HTP_PATH_INVALID_ENCODING
+  | PT_badu hi lo => N.lor c_HTP_PATH_INVALID_ENCODING (pth_u_flags c hi lo)
+  end.
+Definition pth_lor_all (l : list N) : N := fold_right N.lor 0 l.
+
+(* the byte a token contributes to the output (before backslash conversion / lower-casing / separator compression) *)
+Definition pth_interp (c : dcfg) (t : pth_tok) : option N :=
+  match t with
+  | PT_lit b => Some b
+  | PT_rawnul => if d_nul_raw_term c then None else Some 0
+  | PT_pct b => if (b =? 0) && d_nul_enc_term c then None
+                else if pth_issep c b && negb (d_sep_decode c) then Some pth_PCT else Some b
+  | PT_pctu hi lo => Some (pth_u_value c hi lo)
+  | PT_bad => match pth_handling c with Pth_remove => None | _ => Some pth_PCT end
+  | PT_badx b => Some b
+  | PT_badu hi lo => Some (pth_u_value c hi lo)
+  end.
+Definition pth_post_byte (c : dcfg) (ch : N) : N :=
+  let ch := if (ch =? pth_BSL) && d_backslash c then pth_SL else ch in
+  if d_lowercase c then c_tolower ch else ch.
+Fixpoint pth_squeeze (prev : bool) (l : bytes) : bytes :=
+  match l with
+  | [] => []
+  | x :: r => if x =? pth_SL then (if prev then pth_squeeze true r else x :: pth_squeeze true r)
+              else x :: pth_squeeze false r
+  end.
+Definition pth_compress (c : dcfg) (prev : bool) (l : bytes) : bytes := if d_sep_compress c then pth_squeeze prev l else l.
+Definition pth_opt_list (o : option N) : bytes := match o with Some b => [b] | None => [] end.
+Definition pth_decode_spec (c : dcfg) (s : bytes) : bytes :=
+  pth_compress c false (map (pth_post_byte c) (flat_map (fun t => pth_opt_list (pth_interp c t)) (pth_lex c s))).
+
+(* which tokens are the "construct" of each indicator *)
+Definition pth_raises_invalid (t : pth_tok) : bool :=
+  match t with PT_bad | PT_badx _ | PT_badu _ _ => true | _ => false end.
+Definition pth_raises_rawnul (t : pth_tok) : bool := match t with PT_rawnul => true | _ => false end.
+Definition pth_raises_encnul (c : dcfg) (t : pth_tok) : bool :=
+  match t with PT_pct b => b =? 0 | PT_pctu hi lo => pth_u_value c hi lo =? 0 | _ => false end.
+Definition pth_raises_encsep (c : dcfg) (t : pth_tok) : bool :=
+  match t with
+  | PT_pct b => pth_issep c b
+  | PT_pctu hi lo | PT_badu hi lo => pth_issep c (pth_u_value c hi lo)
+  | _ => false
+  end.
+Definition pth_raises_overlong_u (t : pth_tok) : bool :=
+  match t with PT_pctu hi _ | PT_badu hi _ => hi =? 0 | _ => false end.
+Definition pth_raises_halffull (t : pth_tok) : bool :=
+  match t with PT_pctu hi _ | PT_badu hi _ => hi =? 255 | _ => false end.
